@@ -356,7 +356,7 @@ def model_value(m, v, depth=0):
         if v.ty == 'bool':
             return z3.is_true(r)
         if v.ty == 'real' and z3.is_rational_value(r):
-            return float(r.numerator_as_long()) / float(r.denominator_as_long())
+            return '%d/%d' % (r.numerator_as_long(), r.denominator_as_long()) if r.denominator_as_long() != 1 else r.numerator_as_long()
         if v.ty == 'bytes':
             return seq_model_bytes(m, r)
         if v.ty == 'str' and z3.is_string_value(r):
